@@ -524,7 +524,7 @@ def run(tier, replay=None):
     rep = common.new_report('C10', tier, 'other')
     mutator_obligations(rep)
     # assigning parsed subtags to the public fields: the subtag validators normalise exactly as the parser does (shared with C15)
-    validators.run_all(common.program('K0'), rep, roles_wanted={'Language', 'Script', 'Region', 'Variant'})
+    validators.run_all(common.program('K0'), rep)
     # "to_string and a re-parse agree with the model": every state the mutators can build (an empty value list under a key, any order of insertion)
     # is printed by the Display grammars and re-read by the parser tables into the slots it was printed from (shared with C05)
     from . import c05
